@@ -62,11 +62,14 @@ def render_unmock(s: UShape, idx: int):
         names.append(name)
         kinds = [KINDS[p] for p in m.params]
         params = ", ".join(f"p{i}: {sig_of(p, i)}" for i, p in enumerate(m.params))
-        recv = {"ref": "&self", "mut": "&mut self", "pin": "self: std::pin::Pin<&mut Self>"}[m.receiver]
+        recv = {"ref": "&self", "mut": "&mut self", "pin": "self: std::pin::Pin<&mut Self>", "owned": "self",
+                "rc": "self: std::rc::Rc<Self>", "arc": "self: std::sync::Arc<Self>"}[m.receiver]
         asy = "async " if m.asyncness == "async_fn" else ""
-        trait_items.append(f"    {asy}fn {name}({recv}{', ' if params else ''}{params}) -> u32;")
+        sized = " where Self: Sized" if m.receiver in ("owned", "rc", "arc") else ""
+        trait_items.append(f"    {asy}fn {name}({recv}{', ' if params else ''}{params}) -> u32{sized};")
         # real function
-        dep_ty = "&(impl Tr + ?Sized)" if m.receiver == "ref" else "&mut impl Tr"
+        dep_ty = {"ref": "&(impl Tr + ?Sized)", "owned": "impl Tr", "rc": "std::rc::Rc<impl Tr>",
+                  "arc": "std::sync::Arc<impl Tr>"}.get(m.receiver, "&mut impl Tr")
         order = list(range(len(m.params)))
         if m.form == "params":
             order = order[::-1]
@@ -79,9 +82,15 @@ def render_unmock(s: UShape, idx: int):
             aw = ".await" if False else ""
             nested = f"let nested = dep.helper({10 + mi}); ev({idx}, \"nested_{name}\", &[nested.to_string()], &[]);"
         body = (f"ev({idx}, \"real_{name}\", &[{probes}], &[{addrs}]); {muts} {nested} {7000 + mi}")
-        if m.form != "none":
+        if m.form == "empty":
+            # an explicit, empty parameter list: the real function wants neither the mock nor the arguments
+            real_fns.append(f"{asy}fn real_{name}() -> u32 {{ ev({idx}, \"real_{name}\", &[], &[]); {7000 + mi} }}")
+            fn_list.append(f"real_{name}()")
+        elif m.form != "none":
             real_fns.append(f"{asy}fn real_{name}(dep: {dep_ty}{', ' if rparams else ''}{rparams}) -> u32 {{ {body} }}")
-        if m.form == "path":
+        if m.form == "empty":
+            pass
+        elif m.form == "path":
             fn_list.append(f"real_{name}")
         elif m.form == "params":
             exprs = ", ".join(["self"] + [f"p{i}" for i in order])
@@ -129,10 +138,17 @@ def render_unmock(s: UShape, idx: int):
             if m.asyncness == "async_fn":
                 call = f"block_on({call}).0"
             mut = "mut " if m.receiver in ("mut", "pin") else ""
+            by_value = m.receiver in ("owned", "rc", "arc")
+            wrap = {"rc": "let u = std::rc::Rc::new(u);", "arc": "let u = std::sync::Arc::new(u);"}.get(m.receiver, "")
+            # a by-value receiver is consumed by the call: the mock is verified when the real function lets go of it
+            verify = (f'ev({idx}, "verify_{tag}", &[String::from("ok")], &[]);' if by_value else
+                      f'let v = std::panic::catch_unwind(std::panic::AssertUnwindSafe(move || drop(u))); '
+                      f'ev({idx}, "verify_{tag}", &[match v {{ Ok(()) => String::from("ok"), Err(p) => panic_text(p) }}], &[]);')
             drivers.append(f"""
     {{
         {decls}
         let {mut}u = {mk};
+        {wrap}
         ev({idx}, "begin_{tag}", &[{cp}], &[{ca}]);
         let r = std::panic::catch_unwind(std::panic::AssertUnwindSafe(|| {call}));
         match r {{
@@ -140,13 +156,12 @@ def render_unmock(s: UShape, idx: int):
             Err(p) => ev({idx}, "panic_{tag}", &[panic_text(p)], &[]),
         }}
         ev({idx}, "after_{tag}", &[{cp}], &[]);
-        let v = std::panic::catch_unwind(std::panic::AssertUnwindSafe(move || drop(u)));
-        ev({idx}, "verify_{tag}", &[match v {{ Ok(()) => String::from("ok"), Err(p) => panic_text(p) }}], &[]);
+        {verify}
     }}""")
             exp_calls.append({
                 "tag": tag, "method": name, "form": m.form, "reenter": m.reenter,
                 "caller": [py_probe(k, i) for i, k in enumerate(kinds)],
-                "after": [py_probe(k, i, mutated=(m.form != "none")) for i, k in enumerate(kinds)],
+                "after": [py_probe(k, i, mutated=(m.form not in ("none", "empty"))) for i, k in enumerate(kinds)],
                 "n_refs": sum(1 for k in kinds if k.is_ref),
                 "result": str(7000 + mi), "helper": str(500 + mi),
             })
@@ -186,10 +201,11 @@ def check_unmock(exp, events):
         if len(real) != 1:
             pan = [e["p"][0] for e in seg if e["k"] == f"panic_{tag}"]
             return f"{tag}: registered function real_{name} ran {len(real)} times (panic: {pan})"
-        if real[0]["p"] != c["caller"]:
-            return f"{tag}: real function received {real[0]['p']}, caller passed {c['caller']}"
-        if real[0]["a"] != begin[0]["a"]:
-            return f"{tag}: reference arguments are not the caller's objects"
+        if c["form"] != "empty":
+            if real[0]["p"] != c["caller"]:
+                return f"{tag}: real function received {real[0]['p']}, caller passed {c['caller']}"
+            if real[0]["a"] != begin[0]["a"]:
+                return f"{tag}: reference arguments are not the caller's objects"
         res = [e for e in seg if e["k"] == f"result_{tag}"]
         if not res:
             pan = [e["p"][0] for e in seg if e["k"] == f"panic_{tag}"]
@@ -220,8 +236,8 @@ def unmock_shapes(rng: random.Random, n):
             arity = rng.choice([0, 1, 2, 2, 3])
             methods.append(UMethod(
                 params=[rng.choice(SIMPLE) for _ in range(arity)],
-                form=rng.choice(["path", "path", "params", "none"]),
-                receiver=rng.choice(["ref", "ref", "ref", "mut", "pin"]),
+                form=rng.choice(["path", "path", "params", "none", "path", "empty"]),
+                receiver=rng.choice(["ref", "ref", "ref", "mut", "pin", "ref", "owned", "rc", "arc"]),
                 asyncness=rng.choice(["sync", "sync", "sync", "async_fn"]),
                 reenter=rng.random() < 0.3,
             ))
@@ -236,8 +252,13 @@ def unmock_shapes(rng: random.Random, n):
                 m.asyncness = "sync"
             if m.asyncness == "async_fn" and any(KINDS[p].name in ("mut_u32", "mut_vec") for p in m.params):
                 m.asyncness = "sync"
-            if m.form == "none":
+            if m.form in ("none", "empty"):
                 m.reenter = False
+            if m.receiver in ("owned", "rc", "arc"):
+                m.reenter = False
+                m.asyncness = "sync"
+                if m.form == "params":
+                    m.form = "path"
             if m.receiver in ("mut", "pin"):
                 m.reenter = False
             if m.receiver == "pin":
